@@ -13,7 +13,10 @@ ProfC09 == [C04 |-> FALSE, C03 |-> FALSE, C09 |-> TRUE, X |-> FALSE]
 ProfAll == [C04 |-> TRUE, C03 |-> TRUE, C09 |-> TRUE, X |-> TRUE]
 Rec == ndJsonDeserialize(IOEnv.TRACE)
 E == Rec[l]
-Matches(x, r) == \A k \in DOMAIN x : k \in DOMAIN r /\ r[k] = x[k]
+\* every field the action puts into ev' must equal the logged field; events flagged "split" (in-situ runs: the two
+\* halves of a poll whose inner call was answered at once by the layer below) carry no state views
+ViewKeys == {"sync", "ast", "mst", "isopen", "mt", "mf", "msl"}
+Matches(x, r) == \A k \in DOMAIN x : (k \in ViewKeys /\ "split" \in DOMAIN r) \/ (k \in DOMAIN r /\ r[k] = x[k])
 Is(k) == l <= Len(Rec) /\ E.e = k /\ l' = l + 1
 obsv == <<oState, oOpenAt, oSt, oTrials>>
 machv == <<cfg, now, state, changedAt, win, hoSucc, hoAdm, epoch, st, startT, gout, gid, trial, ngate>>
@@ -25,12 +28,14 @@ ObsReset == oState' = "closed" /\ oOpenAt' = 0 /\ oSt' = [c \in Callers |-> "non
 \* oOpenAt holds the end of the current shield: set when a step first shows Open, ended only
 \* by the wait running out or by a manual force_closed / reset -- not by the breaker showing
 \* another state on its own (a breaker that leaves Open early must still not let calls through)
+\* the state view of an event; the halves of a split poll (in-situ runs) show none: the view of the previous event stands
+Sync == IF "sync" \in DOMAIN E THEN E.sync ELSE oState
 Shielded == E.t < oOpenAt
 RejectedAtOnce(c) ==
   /\ E.ns = 0
   /\ IF cfg.fb = 1 THEN (E.res = "ok" /\ E.val = 9000 + c) ELSE (E.res = "err" /\ E.kind = "open")
 NextTrials ==
-  LET post == E.sync
+  LET post == Sync
       c == IF "c" \in DOMAIN E THEN E.c ELSE 0
       base == IF post = "half" /\ oState = "half" THEN oTrials ELSE {}
       gone == E.e = "drop" \/ (E.e = "poll" /\ E.res = "panic")
@@ -40,9 +45,9 @@ NextTrials ==
      ELSE IF gone THEN base \ {c}
      ELSE base
 ObsStep ==
-  /\ oState' = E.sync
+  /\ oState' = Sync
   /\ oOpenAt' = (IF E.e = "op" /\ E.name \in {"force_closed", "reset"} THEN 0
-                 ELSE IF E.sync = "open" /\ oState # "open" THEN E.t + cfg.wait
+                 ELSE IF Sync = "open" /\ oState # "open" THEN E.t + cfg.wait
                  ELSE oOpenAt)
   /\ oTrials' = NextTrials
   /\ oSt' = (IF E.e = "create" THEN [oSt EXCEPT ![E.c] = "created"]
@@ -54,7 +59,7 @@ ObsStep ==
   \* C09: trial calls alive or reported in one half-open period
   /\ G("C09", Cardinality(NextTrials) <= (IF cfg.perm > 1 THEN cfg.perm ELSE 1))
   \* callers beyond the bound are rejected at once, not parked
-  /\ G("C09", (E.e = "poll" /\ oSt[E.c] = "created" /\ oState = "half" /\ E.sync = "half" /\ E.ns = 0) => E.res # "pending")
+  /\ G("C09", (E.e = "poll" /\ oSt[E.c] = "created" /\ oState = "half" /\ Sync = "half" /\ E.ns = 0) => E.res # "pending")
 Observed == UNCHANGED machv /\ ev' = [e |-> E.e] /\ ObsStep
 Full == Enforce["C04"]
 
